@@ -68,7 +68,7 @@ def run(chk, replay=None):
     # the real CLI: 3 input channels x 2 output channels x LF/CRLF x final newline x 2 repetitions
     import gzip
     cfg = Cfg(nums=True, nss=True)
-    sample = [ls for ls in logs if 3 <= len(ls)][:6 if th else 3] + [[pool[0]], [pool[1], pool[2]]]     # incl. a one-entry log: without a final newline its raw bytes contain no LF at all
+    sample = [ls for ls in logs if 3 <= len(ls)][:6 if th else 3] + [[pool[0]], [pool[1], pool[2]], [b'\xef\xbb\xbf' + pool[0], pool[1]], [b'\xef\xbb\xbf', pool[2]], [b'\xff\xfe' + pool[0], b'\x00' + pool[1], pool[2]]]     # incl. a one-entry log, and logs that start with a byte order mark (such a first line is not JSON on ANY channel): without a final newline its raw bytes contain no LF at all
     for ls in sample:
         for crlf in (False, True):
             for final in (True, False):
